@@ -1,5 +1,5 @@
 """C18 deductive part: call-site conformance of the resampling call and purity of the seed stream (loop with invariant over any n_boot)."""
-from ..contracts.bootstrap import BootstrapArguments, ManySamples, SingleSample
+from ..contracts.bootstrap import BootstrapArguments, ManySamples, Quantiles, SingleSample
 from ..pyvc import verify
 
 
@@ -20,4 +20,7 @@ def run_deductive(rep):
                 can = [("quantile_one_accepted", verify.replace_expr("_ci >= 1", "_ci > 1")), ("zero_resamples_accepted", verify.replace_expr("n_boot < 1", "n_boot < 0")),
                        ("resampling_ignores_the_callers_seed", verify.replace_expr("random_state=random_state", "random_state=None"))]
             items.append((BootstrapArguments(nk, ck), can))
+    items += [(Quantiles("frame"), [("missing_groups_poison_the_quantiles", verify.replace_expr("np.nanquantile", "np.quantile")),
+                                    ("quantile_entries_all_from_the_first_quantile", verify.replace_expr("result_np[i, :, :]", "result_np[0, :, :]"))]),
+              (Quantiles("series"), [])]
     verify.verify_many(rep, items)
